@@ -28,19 +28,19 @@ const originRule = "one case = one history over 1-3 Go zoo targets mocked with a
 const logRule = "one case = one plan of the behavioural worlds (hist incl. methods with OpenDebug/OpenTrace/Close* spliced in as operations, stub incl. variadics and sequences, iface; same generators and seeds) executed three times in one process - logging off, OpenDebug(), OpenTrace() - with line-by-line transcript comparison; the first seeds are repeated in separate processes with GOOM_DEBUG=1, with an uncreatable log directory and with a log file on /dev/full, and transcript hashes are compared across processes; non-trivial = every case compares at least two logging configurations; distinct = hash of (operations, fired events)"
 
 func init() {
-	props["C19"] = propCfg{World: "log", Level: "exploration", Quick: 1500, Thorough: 100000, Chunk: 50, EnvVar: map[string]int{"env:debug": 300, "env:nodir": 150, "env:full": 150}, Rule: logRule, Assume: commonAssume}
+	props["C19"] = propCfg{World: "log", Level: "exploration", Quick: 1500, Thorough: 50000, Chunk: 50, EnvVar: map[string]int{"env:debug": 300, "env:nodir": 150, "env:full": 150}, Rule: logRule, Assume: commonAssume}
 	props["C03"] = propCfg{World: "origin", Level: "exploration", Quick: 1600, Thorough: 100000, Chunk: 40, Rule: originRule, Assume: commonAssume}
 	props["C10"] = propCfg{World: "sym", Level: "fault_enumeration", Quick: 1500, Thorough: 60000, RaceQ: 200, RaceT: 6000, Chunk: 25, Extra: map[string]int{"pie": 150, "strip": 150}, Rule: symRule, Assume: commonAssume}
 	props["C14"] = propCfg{World: "mem", Level: "exploration", Quick: 2500, Thorough: 200000, Chunk: 50, Rule: memRule, Assume: commonAssume}
-	props["C20"] = propCfg{World: "space", Level: "fault_enumeration", Quick: 1500, Thorough: 150000, RaceQ: 300, RaceT: 20000, PerProc: true, Rule: spaceRule, Assume: commonAssume}
-	props["C11"] = propCfg{World: "conc", Level: "exploration", Quick: 3000, Thorough: 250000, RaceQ: 500, RaceT: 40000, Chunk: 50, Rule: concRule, Assume: commonAssume}
-	props["C07"] = propCfg{World: "iface", Level: "exploration", Quick: 4000, Thorough: 300000, Chunk: 100, Rule: ifaceRule, Assume: commonAssume}
-	props["C04"] = propCfg{World: "stub", Level: "exploration", Quick: 8000, Thorough: 600000, Chunk: 200, Rule: stubRule, Assume: commonAssume}
-	props["C05"] = propCfg{World: "stub", Level: "exploration", Quick: 6000, Thorough: 400000, RaceQ: 600, RaceT: 30000, Chunk: 200, Rule: stubRule, Assume: commonAssume}
-	props["C08"] = propCfg{World: "var", Level: "exploration", Quick: 6000, Thorough: 400000, Chunk: 200, Rule: varRule, Assume: commonAssume}
-	props["C01"] = propCfg{World: "hist", Level: "exploration", Quick: 2400, Thorough: 120000, Chunk: 50, Rule: histRule, Assume: commonAssume}
-	props["C02"] = propCfg{World: "hist", Level: "exploration", Quick: 2400, Thorough: 120000, Chunk: 50, Rule: histRule, Assume: commonAssume}
-	props["C06"] = propCfg{World: "hist", Level: "exploration", Quick: 2400, Thorough: 120000, Chunk: 50, Rule: histRule + "; for C06 the targets are the 17 methods of the method zoo (exported / unexported, pointer / value receivers, name families Get/GetX/Get1, an unexported struct type, generic instantiations of equal and different GC shape) and every sibling method of the receiver type is called after each step", Assume: commonAssume}
+	props["C20"] = propCfg{World: "space", Level: "fault_enumeration", Quick: 1500, Thorough: 100000, RaceQ: 300, RaceT: 10000, PerProc: true, Rule: spaceRule, Assume: commonAssume}
+	props["C11"] = propCfg{World: "conc", Level: "exploration", Quick: 3000, Thorough: 80000, RaceQ: 500, RaceT: 10000, Chunk: 50, Rule: concRule, Assume: commonAssume}
+	props["C07"] = propCfg{World: "iface", Level: "exploration", Quick: 4000, Thorough: 60000, Chunk: 100, Rule: ifaceRule, Assume: commonAssume}
+	props["C04"] = propCfg{World: "stub", Level: "exploration", Quick: 8000, Thorough: 240000, Chunk: 200, Rule: stubRule, Assume: commonAssume}
+	props["C05"] = propCfg{World: "stub", Level: "exploration", Quick: 6000, Thorough: 150000, RaceQ: 600, RaceT: 15000, Chunk: 200, Rule: stubRule, Assume: commonAssume}
+	props["C08"] = propCfg{World: "var", Level: "exploration", Quick: 6000, Thorough: 200000, Chunk: 200, Rule: varRule, Assume: commonAssume}
+	props["C01"] = propCfg{World: "hist", Level: "exploration", Quick: 2400, Thorough: 100000, Chunk: 50, Rule: histRule, Assume: commonAssume}
+	props["C02"] = propCfg{World: "hist", Level: "exploration", Quick: 2400, Thorough: 100000, Chunk: 50, Rule: histRule, Assume: commonAssume}
+	props["C06"] = propCfg{World: "hist", Level: "exploration", Quick: 2400, Thorough: 100000, Chunk: 50, Rule: histRule + "; for C06 the targets are the 17 methods of the method zoo (exported / unexported, pointer / value receivers, name families Get/GetX/Get1, an unexported struct type, generic instantiations of equal and different GC shape) and every sibling method of the receiver type is called after each step", Assume: commonAssume}
 	props["C12"] = propCfg{World: "hist", Level: "exploration", Quick: 2400, Thorough: 120000, Chunk: 50, Rule: histRule, Assume: commonAssume}
 	props["C13"] = propCfg{World: "hist", Level: "exploration", Quick: 2400, Thorough: 120000, Chunk: 50, Rule: histRule, Assume: commonAssume}
 }
